@@ -151,9 +151,17 @@ func w3Check(info *types.Info, fd *ast.FuncDecl, stack []ast.Node, ifs *ast.IfSt
 	// a variable of the own condition updated after the payload write in the same block
 	tracked := false
 	var condVars []types.Object
+	_ = condVars
 	ast.Inspect(ifs.Cond, func(n ast.Node) bool {
-		if id, ok := n.(*ast.Ident); ok {
-			if v, ok := info.ObjectOf(id).(*types.Var); ok && !v.IsField() {
+		switch x := n.(type) {
+		case *ast.SelectorExpr:
+			// a field of a local struct variable (state.nwritten)
+			if o := refObj(info, x); o != nil {
+				condVars = append(condVars, o)
+				return false
+			}
+		case *ast.Ident:
+			if v, ok := info.ObjectOf(x).(*types.Var); ok && !v.IsField() {
 				condVars = append(condVars, v)
 			}
 		}
@@ -172,14 +180,14 @@ func w3Check(info *types.Info, fd *ast.FuncDecl, stack []ast.Node, ifs *ast.IfSt
 			switch x := st.(type) {
 			case *ast.IncDecStmt:
 				for _, v := range condVars {
-					if rootObj(info, x.X) == v && x.Tok == token.INC {
+					if (rootObj(info, x.X) == v || refObj(info, x.X) == v) && x.Tok == token.INC {
 						tracked = true
 					}
 				}
 			case *ast.AssignStmt:
 				for _, l := range x.Lhs {
 					for _, v := range condVars {
-						if rootObj(info, l) == v {
+						if rootObj(info, l) == v || refObj(info, l) == v {
 							tracked = true
 						}
 					}
